@@ -12,6 +12,7 @@
 //! trusted: R15 (deep slice): build_onion_payloads: the body of the closure that turns the path's blinded tail into the TailDetails handed to build_onion_payloads_callback, verbatim as a function of the tail (skeleton {hops, blinding_point, excess_final_cltv_expiry_delta, final_value_msat}) and the optional trampoline packet; how build_onion_payloads_callback uses a Blinded tail is kept in the verified text but not claimed (see the assume line)
 //! assume: every hop's fee_msat <= 21e17 (the total supply in msat): without it `cur_value_msat += hop.fee_msat()` can overflow u64 before the limit test (observation O5 in DESIGN)
 //! assume: something is delivered past the last unblinded hop (tail amount + the last hop's fee_msat > 0: with a zero running total the source substitutes the hop's own fee for the amount to forward); a blinded tail has at least one hop, its final amount is at most 21e17 msat and cur_block_height + excess_final_cltv_expiry_delta fits in u32 (`cur_block_height + excess_final_cltv_expiry_delta` is computed unchecked: observation O5)
+//! trusted: R15/R6/R8 (final-payload TLV order, module final_tlvs): the statements of OutboundOnionPayload::write (Receive and BlindedReceive arms) that gather the extra TLVs, verbatim; `A.iter().chain(B.iter()).collect()` over environment lists with the std meaning (the elements of A, then of B, as references); `v.sort_unstable_by_key(|(typ, _)| *typ)` -> sort_by_type (an ascending permutation: std); that the encoder then writes them in the order given, after the numbered fields, is the macro _encode_varint_length_prefixed_tlv! (not verified)
 //! trusted: assume_specification for core::cmp::max / core::cmp::min (std definitions): present in every unit so that a change that introduces them is verified instead of being rejected by the tool
 use vstd::prelude::*;
 verus! {
@@ -563,6 +564,56 @@ pub struct OuterFields { pub total_mpp_amount_msat: u64 }
     &path, outer_onion, cur_block_height,
 //@with
     &path, outer_onion, cur_block_height + 1,
+//@end
+}
+
+// ---- the extra TLVs of a final-hop payload (the sender's custom TLVs, the keysend preimage, the invoice request) are written in ascending type order, each once: a TLV stream out of order is refused by the recipient (two deep R15 slices of OutboundOnionPayload::write) ----
+pub mod final_tlvs {
+use vstd::prelude::*;
+pub type Tlv = (u64, Vec<u8>);
+// R6: `A.iter().chain(B.iter())...collect()`: the elements of A, then of B, .. as references in that order (iterator semantics of std)
+pub struct It<'a> { pub s: Ghost<Seq<&'a Tlv>> }
+pub struct TlvList { pub v: Vec<Tlv> }
+pub struct OptTlv { pub o: Option<Tlv> }
+pub open spec fn refs_of(v: Seq<Tlv>, r: Seq<&Tlv>) -> bool { r.len() == v.len() && forall|k: int| 0 <= k < v.len() ==> *r[k] == v[k] }
+impl TlvList { #[verifier::external_body] pub fn iter(&self) -> (r: It<'_>) ensures refs_of(self.v@, r.s@) { unimplemented!() } }
+impl OptTlv { #[verifier::external_body] pub fn iter(&self) -> (r: It<'_>) ensures refs_of(if self.o is Some { seq![self.o->Some_0] } else { Seq::<Tlv>::empty() }, r.s@) { unimplemented!() } }
+impl<'a> It<'a> {
+    #[verifier::external_body] pub fn chain(self, other: It<'a>) -> (r: It<'a>) ensures r.s@ == self.s@ + other.s@ { unimplemented!() }
+    #[verifier::external_body] pub fn collect(self) -> (r: Vec<&'a Tlv>) ensures r@ == self.s@ { unimplemented!() }
+}
+pub open spec fn ascending(s: Seq<&Tlv>) -> bool { forall|i: int, j: int| 0 <= i < j < s.len() ==> s[i].0 <= s[j].0 }
+// R8: `v.sort_unstable_by_key(|(typ, _)| *typ)`: v becomes a permutation of itself in ascending order of the first component (std)
+#[verifier::external_body] pub fn sort_by_type<'a>(v: &mut Vec<&'a Tlv>) ensures ascending(final(v)@), final(v)@.len() == old(v)@.len(), final(v)@.to_multiset() =~= old(v)@.to_multiset() { unimplemented!() }
+//@extract lightning/src/ln/msgs.rs :: impl Writeable for OutboundOnionPayload :: fn write
+//@slice R15 nth=1
+    let $m:seq: Vec<&(u64, Vec<u8>)> = $chain:seq; $after:straight _encode_varint_length_prefixed_tlv!(
+//@with
+    fn extra_tlvs_of_a_final_payload<'a>(custom_tlvs: &'a TlvList, keysend_tlv: &'a OptTlv) -> Vec<&'a Tlv> { let $m: Vec<&Tlv> = $chain; $after custom_tlvs }
+//@rw R8 ?
+    custom_tlvs.sort_unstable_by_key(|(typ, _)| *typ);
+//@with
+    sort_by_type(&mut custom_tlvs);
+//@ret r
+//@ensures P C14 the-extra-tlvs-of-a-final-payload-are-the-senders-custom-tlvs-and-the-keysend-preimage-each-once-in-ascending-type-order
+    ascending(r@), r@.len() == custom_tlvs.v@.len() + (if keysend_tlv.o is Some { 1int } else { 0int }),
+//@mutant final_payload_tlvs_left_in_arrival_order
+    custom_tlvs.sort_unstable_by_key(|(typ, _)| *typ); _encode_varint_length_prefixed_tlv!(w, { (2, HighZeroBytesDroppedBigSize(*sender_intended_htlc_amt_msat), required), (4, HighZeroBytesDroppedBigSize(*cltv_expiry_height), required), (8, payment_data, option),
+//@with
+    _encode_varint_length_prefixed_tlv!(w, { (2, HighZeroBytesDroppedBigSize(*sender_intended_htlc_amt_msat), required), (4, HighZeroBytesDroppedBigSize(*cltv_expiry_height), required), (8, payment_data, option),
+//@end
+//@extract lightning/src/ln/msgs.rs :: impl Writeable for OutboundOnionPayload :: fn write
+//@slice R15 nth=2
+    let $m:seq: Vec<&(u64, Vec<u8>)> = $chain:seq; $after:straight _encode_varint_length_prefixed_tlv!(
+//@with
+    fn extra_tlvs_of_a_final_payload_for_a_blinded_recipient<'a>(custom_tlvs: &'a TlvList, invoice_request_tlv: &'a OptTlv, keysend_tlv: &'a OptTlv) -> Vec<&'a Tlv> { let $m: Vec<&Tlv> = $chain; $after custom_tlvs }
+//@rw R8 ?
+    custom_tlvs.sort_unstable_by_key(|(typ, _)| *typ);
+//@with
+    sort_by_type(&mut custom_tlvs);
+//@ret r
+//@ensures P C14 the-extra-tlvs-of-a-final-payload-for-a-blinded-recipient-are-the-custom-tlvs-the-invoice-request-and-the-keysend-preimage-each-once-in-ascending-type-order
+    ascending(r@), r@.len() == custom_tlvs.v@.len() + (if invoice_request_tlv.o is Some { 1int } else { 0int }) + (if keysend_tlv.o is Some { 1int } else { 0int }),
 //@end
 }
 }
